@@ -413,17 +413,19 @@ func implicitGrantInfo(
 	error,
 ) {
 	grantInfo := goidc.GrantInfo{
-		GrantType:                goidc.GrantImplicit,
-		Subject:                  session.Subject,
-		ClientID:                 session.ClientID,
-		ActiveScopes:             session.GrantedScopes,
-		GrantedScopes:            session.GrantedScopes,
-		GrantedAuthDetails:       session.GrantedAuthDetails,
-		ActiveResources:          session.GrantedResources,
-		GrantedResources:         session.GrantedResources,
-		AdditionalIDTokenClaims:  session.AdditionalIDTokenClaims,
-		AdditionalUserInfoClaims: session.AdditionalUserInfoClaims,
-		AdditionalTokenClaims:    session.AdditionalTokenClaims,
+		GrantType:          goidc.GrantImplicit,
+		Subject:            session.Subject,
+		ClientID:           session.ClientID,
+		ActiveScopes:       session.GrantedScopes,
+		GrantedScopes:      session.GrantedScopes,
+		GrantedAuthDetails: session.GrantedAuthDetails,
+		ActiveResources:    session.GrantedResources,
+		GrantedResources:   session.GrantedResources,
+		// The session may live on (hybrid flows keep it for the code): the
+		// grant gets its own maps, not the session's.
+		AdditionalIDTokenClaims:  maps.Clone(session.AdditionalIDTokenClaims),
+		AdditionalUserInfoClaims: maps.Clone(session.AdditionalUserInfoClaims),
+		AdditionalTokenClaims:    maps.Clone(session.AdditionalTokenClaims),
 	}
 
 	setPoPForImplicitGrant(ctx, &grantInfo, session)
